@@ -51,43 +51,43 @@ mutual
 the Go kind the type dictates at every level, tuple lengths and object keys as
 in the type, map keys strictly ascending, at most one marker layer per node with
 a non-empty mark set; `null` and unknown (with the refinement kind of the type) anywhere -/
-def Payload.wf : Ty → Payload → Bool
+def Payload.shaped : Ty → Payload → Bool
   | _, .null => true
   | t, .unk r => r.fits t
-  | t, .marked ms r => !ms.isEmpty && !r.isMarked && Payload.wf t r
+  | t, .marked ms r => !ms.isEmpty && !r.isMarked && Payload.shaped t r
   | t, .b _ => t.isBool
   | t, .n _ => t.isNumber
   | t, .s _ => t.isString
   | t, .seq vs =>
     match t with
-    | .list e => Payload.wfAll e vs
-    | .tuple ts => Payload.wfZip ts vs
+    | .list e => Payload.shapedAll e vs
+    | .tuple ts => Payload.shapedZip ts vs
     | _ => false
   | t, .smap ks vs =>
     match t with
-    | .map e => ks.length == vs.length && Ty.strictAsc ks && Payload.wfAll e vs
-    | .object ns ts _ => decide (ks = ns) && Payload.wfZip ts vs
+    | .map e => ks.length == vs.length && Ty.strictAsc ks && Payload.shapedAll e vs
+    | .object ns ts _ => decide (ks = ns) && Payload.shapedZip ts vs
     | _ => false
   | t, .sset ids vs =>
     match t with
-    | .set e => ids.length == vs.length && Payload.wfAll e vs
+    | .set e => ids.length == vs.length && Payload.shapedAll e vs
     | _ => false
   | t, .caps =>
     match t with
     | .capsule _ => true
     | _ => false
   | _, .bad _ => false
-def Payload.wfAll : Ty → List Payload → Bool
+def Payload.shapedAll : Ty → List Payload → Bool
   | _, [] => true
-  | e, v :: vs => Payload.wf e v && Payload.wfAll e vs
-def Payload.wfZip : List Ty → List Payload → Bool
+  | e, v :: vs => Payload.shaped e v && Payload.shapedAll e vs
+def Payload.shapedZip : List Ty → List Payload → Bool
   | [], [] => true
-  | t :: ts, v :: vs => Payload.wf t v && Payload.wfZip ts vs
+  | t :: ts, v :: vs => Payload.shaped t v && Payload.shapedZip ts vs
   | _, _ => false
 end
 
 /-- a well-formed value: well-formed type, payload of that type -/
-def Value.wf (v : Value) : Bool := v.ty.wf && v.v.wf v.ty
+def Value.shaped (v : Value) : Bool := v.ty.wf && v.v.shaped v.ty
 
 mutual
 /-- every number leaf of the payload is one of `ns` -/
@@ -113,7 +113,7 @@ def HashCoherentNums (ns : List Num) : Bool :=
 /-- what `cty_rules_lawful_partial` admits as a set member of element type `e`:
 well-formed, wholly known, no mark at any depth, numbers drawn from `ns` -/
 def Payload.member (e : Ty) (ns : List Num) (p : Payload) : Bool :=
-  p.wf e && p.whollyKnown && !p.containsMarked && p.numsIn ns
+  p.shaped e && p.whollyKnown && !p.containsMarked && p.numsIn ns
 
 end CtyModel
 
